@@ -502,3 +502,78 @@ Qed.
 Theorem custom_calls_pass_c03_okb : forall sizes mis jds,
   Valid sizes mis jds -> c03_okb jds (obs_calls_custom sizes mis jds) = true.
 Proof. intros. now apply c03_okb_complete, custom_calls_satisfy_C03. Qed.
+
+(* ================================================================== (c) no handshake condition (fast / network) *)
+(* grouper() hands the short last group to the callback as it is: every group has at most n entries, so the
+   first (only) segment of a call of the fast plan is the whole group, and the concatenated groups are the whole
+   shuffled stub list -- whatever its length *)
+Lemma chunks_aux_short : forall fuel n l g, In g (chunks_aux fuel n l) -> length g <= n.
+Proof.
+  induction fuel as [|f IH]; intros n l g H; cbn in H; [contradiction|].
+  destruct l as [|x t]; [contradiction|].
+  destruct H as [<-|H]; [apply firstn_le_length|exact (IH _ _ _ H)].
+Qed.
+
+Lemma chunks_short : forall n l g, In g (chunks n l) -> length g <= n.
+Proof. intros n l g. apply chunks_aux_short. Qed.
+
+Record ValidNH (sizes : list nat) (jds : list (list nat)) : Prop := mk_ValidNH {
+  vn_rect : forall r, In r jds -> length r = ncols jds;
+  vn_sizes : forall k, k < ncols jds -> k < length sizes /\ 0 < size_of sizes k
+}.
+
+Lemma validb_nohs_ValidNH : forall sizes jds, validb_nohs sizes jds = true <-> ValidNH sizes jds.
+Proof.
+  intros sizes jds. unfold validb_nohs. rewrite andb_true_iff, !forallb_forall. split.
+  - intros [H1 H2]. constructor.
+    + intros r Hr. now apply Nat.eqb_eq, H1.
+    + intros k Hk. specialize (H2 k (proj2 (in_seq0 _ _) Hk)).
+      apply andb_true_iff in H2. destruct H2 as [Ha Hb]. apply Nat.ltb_lt in Ha, Hb. now split.
+  - intros [V1 V2]. split.
+    + intros r Hr. now apply Nat.eqb_eq, V1.
+    + intros k Hk. apply in_seq0 in Hk. destruct (V2 k Hk) as [Ha Hb].
+      apply andb_true_iff. split; now apply Nat.ltb_lt.
+Qed.
+
+(* the handshake-consistent hypotheses are a special case *)
+Lemma Valid_ValidNH : forall sizes mis jds, Valid sizes mis jds -> ValidNH sizes jds.
+Proof. intros sizes mis jds V. constructor; [exact (v_rect _ _ _ V)|exact (v_sizes _ _ _ V)]. Qed.
+
+Theorem placement_fast_nohs : forall sizes jds pis,
+  ValidNH sizes jds ->
+  placement sizes (singleton_mis (ncols jds)) (ncols jds)
+            (map flat_call (fst (plan_fast sizes jds pis))) =
+  shuffle_all pis (all_stubs jds).
+Proof.
+  intros sizes jds pis V.
+  set (T := ncols jds) in *. set (sl := shuffle_all pis (all_stubs jds)).
+  assert (Hlen : length sl = T) by (unfold sl; now rewrite shuffle_all_length, all_stubs_length).
+  destruct (plan_fast_from_spec sl 0 sizes) as [cs [E [B F]]].
+  { intros i Hi. cbn. apply (vn_sizes _ _ V). rewrite Hlen in Hi. exact Hi. }
+  unfold plan_fast. fold sl. rewrite E. cbn [fst].
+  transitivity (map (fun i => nth i sl []) (seq 0 (length sl))); [|apply map_nth_seq].
+  rewrite Hlen. unfold placement.
+  apply map_ext_in. intros i Hi. apply in_seq0 in Hi.
+  rewrite where_is_singleton by exact Hi.
+  rewrite singleton_mis_nth by exact Hi.
+  unfold slots. rewrite calls_of_flat.
+  specialize (F i). rewrite Hlen in F. cbn [Nat.add] in F. rewrite F by exact Hi.
+  rewrite !map_map.
+  transitivity (concat (chunks (size_of sizes i) (nth i sl []))).
+  - f_equal. rewrite <- (map_id (chunks (size_of sizes i) (nth i sl []))) at 2.
+    apply map_ext_in. intros g Hg. apply chunks_short in Hg.
+    unfold seg_of, seg_sizes. cbn [flat_call snd fst concat map split_by nth]. rewrite app_nil_r.
+    now apply firstn_all2.
+  - apply chunks_concat. now apply (vn_sizes _ _ V).
+Qed.
+
+Theorem obs_calls_fast_is_model_nohs : forall sizes jds,
+  ValidNH sizes jds -> obs_calls_fast sizes jds = obs_model jds.
+Proof.
+  intros sizes jds V. unfold obs_calls_fast, obs_model. apply map_ext_in. intros pis _.
+  now rewrite placement_fast_nohs.
+Qed.
+
+Theorem fast_calls_pass_c03_okb_nohs : forall sizes jds,
+  ValidNH sizes jds -> c03_okb jds (obs_calls_fast sizes jds) = true.
+Proof. intros sizes jds V. rewrite obs_calls_fast_is_model_nohs by exact V. apply model_passes_c03_okb. Qed.
